@@ -234,7 +234,7 @@ def make_recipe(ctx, k):
     rng = ctx.rng
     conv = G.CONVS[k % len(G.CONVS)]
     if conv == 'ugrid':
-        kw = {'max_w': 3, 'max_h': 2, 'coords_as': 'vars'}
+        kw = {'max_w': 3, 'max_h': 2, 'coords_as': 'vars', 'tables': G.tables_for(k // len(G.CONVS))}
     else:
         kw = {'max_n': 4, 'min_n': 2, 'coords_as': rng.choice(['coords', 'coords', 'vars'])}
         if conv in ('cf2d', 'shoc_simple'):
@@ -253,7 +253,7 @@ def examine(ctx, recipe, items) -> None:
     kept = [q if (q is not None and vbits[n] == '1') else None for n, q in enumerate(raw)]
     if not any(q is not None for q in kept):
         return
-    for _ in range(2):
+    for _ in range(4 if built.conv == 'ugrid' else 2):
         gk, geom = CG.random_geometry(rng, kept)
         buffer = rng.choice([0, 0, 1, 1, 2])
         variant = rng.choice(['direct', 'direct', 'reloaded-second'])
